@@ -275,4 +275,187 @@ theorem registry_follows_history (cfg : Cfg) (hc : cfg.unchangedChecksType = tru
     rw [entryFor_applyOp cfg hc reg hw op hop] at this
     exact this
 
+/-! ### runtime map and file side by side: every acknowledged registration is on disk -/
+
+theorem entryFor_regForce (reg : List Entry) (p : Name) (m : Bool) (i w s : Int) (k' : Bytes) :
+    entryFor (regForce reg p m i w s) k' = if k' = canon p then some (entryOf p m i w s) else entryFor reg k' := by
+  simp only [regForce, entryFor, List.find?_append]
+  by_cases hk : k' = canon p
+  · subst hk
+    rw [find_filter_self]
+    simp [hasKey, entryOf]
+  · rw [find_filter_other reg (canon p) k' hk]
+    have : hasKey k' (entryOf p m i w s) = false := by
+      simp only [hasKey, entryOf, beq_eq_false_iff_ne, ne_eq]
+      exact fun e => hk e.symm
+    simp [hk, this]
+
+theorem wf_regForce (reg : List Entry) (h : WF reg) (p : Name) (hp : p.NoSlash) (m : Bool) (i w s : Int) :
+    WF (regForce reg p m i w s) := by
+  have hf := wf_filter reg h (fun e => !hasKey (canon p) e)
+  constructor
+  · intro e he
+    rcases List.mem_append.mp he with he | he
+    · exact hf.noSlash e he
+    · simp only [List.mem_singleton] at he; subst he; exact hp
+  · intro a ha b hb hab
+    rcases List.mem_append.mp ha with ha | ha <;> rcases List.mem_append.mp hb with hb | hb
+    · exact hf.keyed a ha b hb hab
+    · simp only [List.mem_singleton] at hb; subst hb
+      have := (List.mem_filter.mp ha).2
+      simp [hasKey, entryOf, hab] at this
+    · simp only [List.mem_singleton] at ha; subst ha
+      have := (List.mem_filter.mp hb).2
+      simp [hasKey, entryOf, ← hab] at this
+    · simp only [List.mem_singleton] at ha hb; rw [ha, hb]
+
+/-- what the early return knows about the runtime entry of the key -/
+theorem unchanged_entry (cfg : Cfg) (hc : cfg.unchangedChecksType = true) (reg : List Entry) (hw : WF reg) (p : Name)
+    (hp : p.NoSlash) (i w s : Int) (hu : unchanged cfg reg (canon p) i w s = true) :
+    entryFor reg (canon p) = some (entryOf p false i w s) := by
+  have := entryFor_register cfg hc reg hw p hp false i w s (canon p)
+  simp only [register, hu, Bool.not_false, Bool.true_and, if_true] at this
+  simpa using this
+
+/-- the invariant carried along a history -/
+structure RDInv (s : RD) (h : List POp) : Prop where
+  wf : WF s.rt
+  rtSpec : entryFor s.rt = specRun (fun _ => none) (h.map POp.toRegOp)
+  diskSpec : ∀ k x, specDisk h k = some x → entryFor s.disk k = x
+  clean : s.dirty = false → entryFor s.disk = entryFor s.rt
+
+theorem specRun_snoc (f : Bytes → Option Entry) (h : List RegOp) (op : RegOp) :
+    specRun f (h ++ [op]) = specOp (specRun f h) op := by
+  simp [specRun, List.foldl_append]
+
+theorem specDisk_snoc (h : List POp) (op : POp) : specDisk (h ++ [op]) = specDiskOp (specDisk h) op := by
+  simp [specDisk, List.foldl_append]
+
+theorem runRD_snoc (cfg : Cfg) (s : RD) (h : List POp) (op : POp) : runRD cfg s (h ++ [op]) = stepRD cfg (runRD cfg s h) op := by
+  simp [runRD, List.foldl_append]
+
+/-- keys whose last operation is a registration of any kind are in the runtime map with exactly that entry, so a
+    full save (disk := runtime) satisfies every promise of the file Spec -/
+theorem specDisk_le_rt_gen (h : List POp) :
+    ∀ (f : Bytes → Option (Option Entry)) (g : Bytes → Option Entry), (∀ k x, f k = some x → g k = x) →
+      ∀ k x, h.foldl specDiskOp f k = some x → (h.map POp.toRegOp).foldl specOp g k = x := by
+  induction h with
+  | nil => intro f g hfg k x hs; exact hfg k x hs
+  | cons op rest ih =>
+    intro f g hfg k x hs
+    simp only [List.foldl_cons, List.map_cons] at hs ⊢
+    refine ih (specDiskOp f op) (specOp g op.toRegOp) ?_ k x hs
+    intro k' x' hs'
+    cases op with
+    | reg p m i w s =>
+      simp only [specDiskOp, POp.toRegOp, specOp] at hs' ⊢
+      by_cases hk : k' = canon p
+      · simp only [hk, if_true] at hs' ⊢; exact Option.some.inj hs'
+      · simp only [hk, if_false] at hs' ⊢; exact hfg k' x' hs'
+    | torn p m i w s =>
+      simp only [specDiskOp, POp.toRegOp, specOp] at hs' ⊢
+      by_cases hk : k' = canon p
+      · simp [hk] at hs'
+      · simp only [hk, if_false] at hs' ⊢; exact hfg k' x' hs'
+    | dereg p =>
+      simp only [specDiskOp, POp.toRegOp, specOp] at hs' ⊢
+      by_cases hk : k' = canon p
+      · simp only [hk, if_true] at hs' ⊢; exact Option.some.inj hs'
+      · simp only [hk, if_false] at hs' ⊢; exact hfg k' x' hs'
+
+theorem specDisk_le_rt (h : List POp) (k : Bytes) (x : Option Entry) (hs : specDisk h k = some x) :
+    specRun (fun _ => none) (h.map POp.toRegOp) k = x :=
+  specDisk_le_rt_gen h (fun _ => some none) (fun _ => none) (fun _ x hx => by simpa using hx) k x hs
+
+theorem rdinv_step (cfg : Cfg) (hc : cfg.unchangedChecksType = true) (hd : cfg.unchangedChecksDisk = true)
+    (ha : cfg.saveAtomic = true) (s : RD) (h : List POp) (op : POp) (hp : op.pat.NoSlash) (hi : RDInv s h) :
+    RDInv (stepRD cfg s op) (h ++ [op]) := by
+  obtain ⟨hw, hrt, hdk, hcl⟩ := hi
+  cases op with
+  | dereg p =>
+    refine ⟨wf_deregister s.rt hw p, ?_, ?_, fun _ => rfl⟩
+    · simp only [stepRD, List.map_append, List.map_singleton, specRun_snoc, POp.toRegOp, ← hrt]
+      funext k; exact entryFor_deregister s.rt p k
+    · intro k x hs
+      have := specDisk_le_rt (h ++ [.dereg p]) k x hs
+      simp only [stepRD, List.map_append, List.map_singleton, specRun_snoc, POp.toRegOp, ← hrt] at this ⊢
+      rw [← this]; exact entryFor_deregister s.rt p k
+  | reg p m i w sz =>
+    have hrt' : ∀ rt', (entryFor rt' = fun k => if k = canon p then some (entryOf p m i w sz) else entryFor s.rt k) →
+        entryFor rt' = specRun (fun _ => none) ((h ++ [POp.reg p m i w sz]).map POp.toRegOp) := by
+      intro rt' e
+      simp only [List.map_append, List.map_singleton, specRun_snoc, POp.toRegOp, ← hrt, specOp]; exact e
+    by_cases he : earlyRD cfg s p m i w sz = true
+    · simp only [stepRD, he, if_true]
+      simp only [earlyRD, Bool.and_eq_true, Bool.not_eq_true', hd, Bool.not_true, Bool.false_or] at he
+      obtain ⟨⟨hm, hu⟩, hclean⟩ := he
+      subst hm
+      have hent := unchanged_entry cfg hc s.rt hw p hp i w sz hu
+      refine ⟨hw, hrt' s.rt ?_, ?_, hcl⟩
+      · funext k; by_cases hk : k = canon p
+        · subst hk; simp [hent]
+        · simp [hk]
+      · intro k x hs
+        rw [specDisk_snoc] at hs
+        simp only [specDiskOp] at hs
+        by_cases hk : k = canon p
+        · subst hk; simp only [if_true] at hs; rw [← Option.some.inj hs, hcl hclean]; exact hent
+        · simp only [hk, if_false] at hs; exact hdk k x hs
+    · have he' : earlyRD cfg s p m i w sz = false := by simpa using he
+      simp only [stepRD, he', Bool.false_eq_true, if_false]
+      have hf : entryFor (regForce s.rt p m i w sz) = fun k => if k = canon p then some (entryOf p m i w sz) else entryFor s.rt k :=
+        funext fun k => entryFor_regForce s.rt p m i w sz k
+      refine ⟨wf_regForce s.rt hw p hp m i w sz, hrt' _ hf, ?_, fun _ => rfl⟩
+      intro k x hs
+      have := specDisk_le_rt (h ++ [.reg p m i w sz]) k x hs
+      rw [← hrt' _ hf] at this
+      exact this
+  | torn p m i w sz =>
+    have hrt' : ∀ rt', (entryFor rt' = fun k => if k = canon p then some (entryOf p m i w sz) else entryFor s.rt k) →
+        entryFor rt' = specRun (fun _ => none) ((h ++ [POp.torn p m i w sz]).map POp.toRegOp) := by
+      intro rt' e
+      simp only [List.map_append, List.map_singleton, specRun_snoc, POp.toRegOp, ← hrt, specOp]; exact e
+    have hdisk' : ∀ disk', disk' = s.disk → ∀ k x, specDisk (h ++ [POp.torn p m i w sz]) k = some x → entryFor disk' k = x := by
+      intro disk' e k x hs
+      subst e
+      rw [specDisk_snoc] at hs
+      simp only [specDiskOp] at hs
+      by_cases hk : k = canon p
+      · simp [hk] at hs
+      · simp only [hk, if_false] at hs; exact hdk k x hs
+    by_cases he : earlyRD cfg s p m i w sz = true
+    · simp only [stepRD, he, if_true]
+      simp only [earlyRD, Bool.and_eq_true, Bool.not_eq_true', hd, Bool.not_true, Bool.false_or] at he
+      obtain ⟨⟨hm, hu⟩, _⟩ := he
+      subst hm
+      have hent := unchanged_entry cfg hc s.rt hw p hp i w sz hu
+      refine ⟨hw, hrt' s.rt ?_, hdisk' s.disk rfl, hcl⟩
+      funext k; by_cases hk : k = canon p
+      · subst hk; simp [hent]
+      · simp [hk]
+    · have he' : earlyRD cfg s p m i w sz = false := by simpa using he
+      simp only [stepRD, he', Bool.false_eq_true, if_false, ha, if_true]
+      exact ⟨wf_regForce s.rt hw p hp m i w sz, hrt' _ (funext fun k => entryFor_regForce s.rt p m i w sz k), hdisk' s.disk rfl,
+        fun h => by simp at h⟩
+
+/-- Every ACKNOWLEDGED registration is on disk: after any history of registrations (also torn ones) and
+    deregistrations, the file holds for every key whose last operation was an untorn registration exactly that
+    registration, and nothing for a key that was deregistered last (`acknowledged_is_durable`). -/
+theorem rdinv_run (cfg : Cfg) (hc : cfg.unchangedChecksType = true) (hd : cfg.unchangedChecksDisk = true)
+    (ha : cfg.saveAtomic = true) (h : List POp) :
+    ∀ (h0 : List POp) (s : RD), (∀ op ∈ h, op.pat.NoSlash) → RDInv s h0 → RDInv (runRD cfg s h) (h0 ++ h) := by
+  induction h with
+  | nil => intro h0 s _ hi; simpa [runRD] using hi
+  | cons op rest ih =>
+    intro h0 s hns hi
+    have hstep := rdinv_step cfg hc hd ha s h0 op (hns op (by simp)) hi
+    have := ih (h0 ++ [op]) (stepRD cfg s op) (fun o ho => hns o (List.mem_cons_of_mem _ ho)) hstep
+    simpa [runRD, List.append_assoc] using this
+
+theorem acknowledged_is_durable (cfg : Cfg) (hc : cfg.unchangedChecksType = true) (hd : cfg.unchangedChecksDisk = true)
+    (ha : cfg.saveAtomic = true) (h : List POp) (hns : ∀ op ∈ h, op.pat.NoSlash) :
+    RDInv (runRD cfg ⟨[], [], false⟩ h) h := by
+  have := rdinv_run cfg hc hd ha h [] ⟨[], [], false⟩ hns ⟨wf_nil, rfl, fun k x hs => by simp [specDisk] at hs; subst hs; rfl, fun _ => rfl⟩
+  simpa using this
+
 end Hv.Settings
